@@ -664,7 +664,7 @@ def replay(ctx, path):
         C04 = _load_c04()
         vlib.lake_build(["drv_c04"])
         h04, d04 = C04.build(ctx)
-        a = vlib.run_one(h04, ops)
+        a, ops = vlib.run_replay_conc(h04, ops)
         print("\n".join(a["out"]))
         t = ops[0].split()
         msg = "crash: " + a["crash"][:500] if a["crash"] else C04.judge(
